@@ -88,6 +88,8 @@ def judge(op, impl, model):
             return "reject nilnil %s %s" % (tag, _field(model or "", "qkind") or "?")
         if c.startswith("ok/1"):
             return "reject nil-model-accepted %s" % tag
+    if (_field(impl, "ints") or "").startswith("differ"):
+        return "reject integer-literal-value %s" % _field(impl, "ints")
     if (_field(impl, "render") or "").startswith("panic"):
         return "reject render-panics accepted-model-cannot-be-rendered %s inc=%s" % ((_field(impl, "render") or "")[:120], _field(impl, "inc"))
     for tag, c in (("NewContext", n), ("DefaultCypherContext", d)):
@@ -167,7 +169,7 @@ SPEC = {
                     "method bodies that depend on visitor fields (nil dereference, assertions on model values) are not in the Lean model and are searched by the fuzz corpus only",
                     "never_nilnil is proved for the repaired listener (unsupported-rule errors for oC_StandaloneCall/oC_LoadCSV/oC_InQueryCall, hooks/C07-fix.patch) relative to the "
                     "filter/unsupported-rule error model; the refutation is kept as a theorem about the older table (never_nilnil_refuted_old)"],
-    "explanation": "Completeness oracle on accepted parses: a reflection walk of the returned model reports missing mandatory fields, empty mandatory lists, typed nils in interface slots, nil list elements and nil map values (class `partial`), and the model must render (format.RegularQuery may fail, it must not panic). accessor_chains_guarded: the extractor lists every `<ctx>.A().M()` of cypher/frontend where A is a single-child accessor of a generated rule context (nil when the child is absent, e.g. in a tree built by error recovery); the list must be empty. Outcome model: the model is given the number of recognition errors the RAW ANTLR run reports to a listener of the harness, not what the context recorded; by error_reporting_as_modelled (source text of parseCypher / Context.SyntaxError / AddErrors / newUnsupportedRuleError, kernel-compared) every report is one recorded error, so lexer error ⇒ err; the monitor also requires recorded = reported. Lean: for every rule-labelled tree (any shape, error nodes included) the listener protocol (Context.Enter/Exit, depth counters, type-asserted pops) "
+    "explanation": "Integer literals: the outcome model counts one error for every oC_IntegerLiteral whose text is not a decimal digit string of value at most 2^63-1 (intLiteralInRange on the text, whatever the implementation reports), and for accepted parses the integers the model holds must be the integers written (independent math/big reading of the tokens). Completeness oracle on accepted parses: a reflection walk of the returned model reports missing mandatory fields, empty mandatory lists, typed nils in interface slots, nil list elements and nil map values (class `partial`), and the model must render (format.RegularQuery may fail, it must not panic). accessor_chains_guarded: the extractor lists every `<ctx>.A().M()` of cypher/frontend where A is a single-child accessor of a generated rule context (nil when the child is absent, e.g. in a tree built by error recovery); the list must be empty. Outcome model: the model is given the number of recognition errors the RAW ANTLR run reports to a listener of the harness, not what the context recorded; by error_reporting_as_modelled (source text of parseCypher / Context.SyntaxError / AddErrors / newUnsupportedRuleError, kernel-compared) every report is one recorded error, so lexer error ⇒ err; the monitor also requires recorded = reported. Lean: for every rule-labelled tree (any shape, error nodes included) the listener protocol (Context.Enter/Exit, depth counters, type-asserted pops) "
                    "never panics and restores the stack, provided every visitor method pair is balanced — a decidable condition on the table extracted from "
                    "cypher/frontend/*.go, closed by decide +kernel; listener work <= (filters+4) per node; blank input rejected; (nil,nil) refuted by the CALL witness. "
                    "Tie: outcome class, nil-ness, unsupported/filter error multiset and an FNV trace of the visitor stack at every rule entry are compared between the "
